@@ -326,7 +326,7 @@ func VerifC31bAgain() {
 	if verifTier() == 1 {
 		b.maxOps = 2
 		b.ops = []int{voOpWrite, voOpSnapKeep1}
-		b.tampers = vcTampersQuick
+		b.tampers = []int{voTamperNone, voTamperNoMarker, voTamperCRC0, voTamperWrongCRC, voTamperSize}
 		b.peers = []int{voPeersNone, voPeersSelf}
 	}
 	w := voNewWorld()
